@@ -381,43 +381,51 @@ Definition data_op (o : op) : bool :=
   | _ => false
   end.
 
-(* a well-formed VM value: every frozenset holds hashable elements; with [pure] no stand-in
-   (global / opaque object) occurs in it.  VRef is a leaf here: heap objects are checked one by one *)
-Fixpoint wfv (pure : bool) (v : val) : bool :=
+(* a well-formed VM value: every frozenset holds hashable elements, and every stand-in leaf
+   (global / opaque object) satisfies [P].  VRef is a leaf here: heap objects are checked one by one *)
+Fixpoint wfv (P : val -> bool) (v : val) : bool :=
   match v with
   | VConst _ => true
-  | VGlobal _ _ => negb pure
-  | VObj _ => negb pure
+  | VGlobal _ _ => P v
+  | VObj _ => P v
   | VRef _ => true
-  | VTuple l => forallb (wfv pure) l
-  | VFrozen l => forallb hashable l && forallb (wfv pure) l
+  | VTuple l => forallb (wfv P) l
+  | VFrozen l => forallb hashable l && forallb (wfv P) l
   end.
 
-Definition obj_wf (pure : bool) (o : hobj) : bool :=
+Definition obj_wf (P : val -> bool) (o : hobj) : bool :=
   match o with
-  | HList l => forallb (wfv pure) l
-  | HSet l => forallb hashable l && forallb (wfv pure) l
-  | HDict kvs => forallb (fun kv => hashable (fst kv) && wfv pure (fst kv) && wfv pure (snd kv)) kvs
+  | HList l => forallb (wfv P) l
+  | HSet l => forallb hashable l && forallb (wfv P) l
+  | HDict kvs => forallb (fun kv => hashable (fst kv) && (wfv P (fst kv) && wfv P (snd kv))) kvs
   end.
 
-Definition event_wf (pure : bool) (e : event) : bool :=
+Definition event_wf (P : val -> bool) (e : event) : bool :=
   match e with
   | EvResolve _ _ => true
   | EvCall f args kw _ =>
-      wfv pure f && forallb (wfv pure) args && match kw with Some k => wfv pure k | None => true end
-  | EvPersLoad p _ => wfv pure p
-  | EvSetState o s => wfv pure o && wfv pure s
-  | EvSetItem o k v => wfv pure o && wfv pure k && wfv pure v
+      wfv P f && forallb (wfv P) args && match kw with Some k => wfv P k | None => true end
+  | EvPersLoad p _ => wfv P p
+  | EvSetState o s => wfv P o && wfv P s
+  | EvSetItem o k v => wfv P o && (wfv P k && wfv P v)
   end.
 
-Definition is_nil {A} (l : list A) : bool := match l with [] => true | _ => false end.
+Definition vm_wf (P : val -> bool) (s : vm) : bool :=
+  forallb (wfv P) (cur s) && forallb (forallb (wfv P)) (meta s) &&
+  forallb (fun kv => wfv P (snd kv)) (vmemo s) && forallb (obj_wf P) (heap s) &&
+  forallb (event_wf P) (log s) &&
+  match vstopped s with Some v => wfv P v | None => true end.
 
-Definition vm_wf (pure : bool) (s : vm) : bool :=
-  forallb (wfv pure) (cur s) && forallb (forallb (wfv pure)) (meta s) &&
-  forallb (fun kv => wfv pure (snd kv)) (vmemo s) && forallb (obj_wf pure) (heap s) &&
-  forallb (event_wf pure) (log s) &&
-  match vstopped s with Some v => wfv pure v | None => true end &&
-  (if pure then is_nil (log s) else true).
+Definition no_standin (v : val) : bool := false.     (* plain data: no stand-in at all *)
+Definition any_standin (v : val) : bool := true.
+
+(* stand-in leaves: equal up to the spelling of the builtins module *)
+Definition leaf_same (a b : val) : bool :=
+  match a, b with
+  | VGlobal m1 n1, VGlobal m2 n2 => String.eqb (gnorm m1) (gnorm m2) && String.eqb n1 n2
+  | VObj x, VObj y => Nat.eqb x y
+  | _, _ => false
+  end.
 
 (* ---------- syntactic side conditions on the decompiled program ---------- *)
 (* [fits n ns bound e]: e prints (through the final nodes) within nesting depth n and mentions only
@@ -438,7 +446,10 @@ Fixpoint fits (n : nat) (ns : list node) (bound : nat) (e : expr) : bool :=
                    | None => false
                    end
       | ECall f args kw =>
-          go f && forallb go args && match kw with Some x => go x | None => true end
+          match frozenset_arg e with
+          | Some l => forallb go l
+          | None => go f && forallb go args && match kw with Some x => go x | None => true end
+          end
       | EStarred x => go x
       | EAttr x _ => go x
       | ESetLit l => forallb go l
